@@ -40,6 +40,9 @@ structure Arith (α : Type) where
   trunc : α → Int
   /-- the literal `1e99` -/
   big : α
+  /-- `false`: the code as it is, `int(cost / maxi * self.k)`; `true`: the code after the proposed fix
+      C03-F5, `int(cost * self.k / maxi)` -/
+  mulFirst : Bool := false
 
 namespace Arith
 variable {α : Type} (A : Arith α)
@@ -121,7 +124,8 @@ def pushCells (A : Arith α) (k : Nat) : Nat → CT α → α → α → List (C
   | f + 1, e, cost, maxi, cells, tr =>
     if A.isZero maxi then none else            -- `cost / maxi`: ZeroDivisionError
     let unit := A.div maxi (A.ofNat k)
-    let lbi : Int := A.trunc (A.mul (A.div cost maxi) (A.ofNat k))
+    let lbi : Int := if A.mulFirst then A.trunc (A.div (A.mul cost (A.ofNat k)) maxi)
+                     else A.trunc (A.mul (A.div cost maxi) (A.ofNat k))
     let index : Nat := ((lbi + (tr : Int)) % (k : Int)).toNat
     match cells[index]? with
     | none => none
